@@ -5,12 +5,15 @@ import (
 	"encoding/json"
 	"fmt"
 	"io"
+	"strings"
 
 	"github.com/tormoder/fit"
 
 	"verif/fitmodel"
 	"verif/vx"
 )
+
+var c11Entries = append(append([]string{}, entryNames...), "Decode+options", "DecodeChained+options")
 
 // C11: truncation and read faults never yield silent success.
 
@@ -174,7 +177,8 @@ func c11PartialDiff(f *fit.File, want map[uint16][]string) string {
 }
 
 func runC11(w *vx.W) {
-	streams := []namedStream{sMin12, sMin14, sMin14z, sAct3, sAct3BE, sSet, sZero, sDev, sMonState, sChain2, sChain2b, sChain3, sChainZero, sChainState}
+	crcStreams()
+	streams := []namedStream{sMin12, sMin14, sMin14z, sAct3, sAct3BE, sSet, sZero, sDev, sMonState, sChain2, sChain2b, sChain3, sChainZero, sChainState, sCRChi0, sCRClo0, sCRC00, sChainCRC0}
 	if !w.Quick() {
 		streams = append(streams, sBig, sChainBig, s8192)
 	}
@@ -189,9 +193,13 @@ func runC11(w *vx.W) {
 		for _, m := range s.Members {
 			bounds = append(bounds, bounds[len(bounds)-1]+len(m))
 		}
-		alone := make([]string, len(s.Members))
+		aloneOpt := make([]string, len(s.Members)) // the same with decode options (the lists they add are part of the dump)
 		for i, m := range s.Members {
-			alone[i] = dumpFile(safeDecode(bytes.NewReader(m)).File)
+			aloneOpt[i] = dumpFile(callEntry("Decode+options", bytes.NewReader(m)).File)
+		}
+		aloneBare := make([]string, len(s.Members))
+		for i, m := range s.Members {
+			aloneBare[i] = dumpFile(safeDecode(bytes.NewReader(m)).File)
 		}
 		first := s.Members[0]
 		hs := int(first[0])
@@ -201,16 +209,21 @@ func runC11(w *vx.W) {
 			}
 			for _, kind := range kinds {
 				for _, ob := range []bool{false, true} {
-					for _, e := range entryNames {
+					for _, en := range c11Entries {
+						e := strings.TrimSuffix(en, "+options") // same obligations with and without decode options
+						alone := aloneBare
+						if e != en {
+							alone = aloneOpt
+						}
 						idx++
 						if !w.Mine(idx) {
 							continue
 						}
-						res := callEntry(e, c11Reader(s.B, kind, off, ob))
+						res := callEntry(en, c11Reader(s.B, kind, off, ob))
 						w.Eval(1)
 						w.Distinct(uint64(idx))
-						rep := c11Replay{s.Name, vx.Hex(s.B), e, kind, off, ob}
-						where := fmt.Sprintf("%s on %s, %s at offset %d/%d (one-byte reads: %v)", e, s.Name, kind, off, len(s.B), ob)
+						rep := c11Replay{s.Name, vx.Hex(s.B), en, kind, off, ob}
+						where := fmt.Sprintf("%s on %s, %s at offset %d/%d (one-byte reads: %v)", en, s.Name, kind, off, len(s.B), ob)
 						if res.Panic != "" {
 							w.Violation("panic/"+e, where+": panic "+res.Panic, rep)
 							continue
